@@ -22,7 +22,7 @@ CLAIMED = {
          "stub writers' format fidelity (validated against tests/data); docstring numbering rules; sampling, not proof"),
 }
 CLAIMED["C18"] = ("fault_enumeration", "3", "crash points enumerated: every byte offset of small files (exhaustive per file) and a structured sample of large ones, plus simulated writer crashes with torn chunks, restarts and live reads racing the writers; oracle: the reader raises or returns exactly the model's complete-record prefix",
-         "deterministic simulation with fault injection: truncation-offset enumeration, torn writes, crash/restart, live reader vs simulated writers",
+         "deterministic simulation with fault injection: truncation-offset enumeration, torn writes, crash/restart, live reader vs simulated writers (random and adversarial schedules)",
          "record definition per DESIGN C18; stub writers' format fidelity; hdf5/zlib internals real and not intercepted")
 CLAIMED["C03"] = ("exploration", "3", "seeded analysis sessions over process-global parameter state with natural and injected interruptions; every completed analysis must equal bit for bit the analysis in a pristine forked process with the model's effective parameters; metamorphic partners (fft, relabelling, renaming, shift, scale)",
          "deterministic simulation: session histories + interrupt injection (sys.settrace) + pristine-process reference",
@@ -37,10 +37,10 @@ CLAIMED["C13"] = ("exploration", "3", "seeded sessions of jackknife/bootstrap ex
          "deterministic simulation: RNG state and process identity as part of the history + partner interpreter",
          "the name-seeding clause is the simulator-specific one, the resampling identities ride along as sampled inputs")
 CLAIMED["C11"] = ("exploration", "3", "seeded exporter/importer sessions over every json-based transport (strings, plain/gz files, Obs.dump/Corr.dump, dict files, csv and sqlite data-frame columns) and pickle, against real files through seams for the wall clock, user/host identity and write faults (ENOSPC/EIO at the k-th byte), with overwrite/append histories and import in a partner interpreter; every document validated against the shipped schema; deep comparison of every re-imported attribute and of the subsequent analysis",
-         "deterministic simulation with fault injection: archive world (storage faults, clock, identity, second interpreter) + reference model of the exported objects",
+         "deterministic simulation with fault injection: archive world (storage faults, interrupts at line events, clock, identity, second interpreter, garbage collector behind a seam with scheduled gc operations and a final audit) + reference model of the exported objects",
          "pandas csv writer and sqlite file I/O real and not intercepted; tolerance 64 eps for the delta+offset representation; sampling, not proof")
 CLAIMED["C12"] = ("exploration", "3", "seeded sessions exporting lists of observables on differing configuration subsets / replicas / ensembles through dobs and pobs strings and xml(.gz) files with every separator_insertion mode, under the archive-world seams (clock, identity, write faults, overwrites) and with import in a partner interpreter under another hash seed; deep comparison incl. documented separator treatment and the subsequent analysis",
-         "deterministic simulation with fault injection: archive world + partner interpreter (hash-seed dependence of list(set(names))) + reference model",
+         "deterministic simulation with fault injection: archive world (storage faults, interrupts, scheduled garbage collection, final audit) + partner interpreter (hash-seed dependence of list(set(names))) + reference model",
          "separator rules transcribed from the docstrings; one known format-inherent finding (zero samples) is keyed and reported as KNOWN-FINDING")
 PENDING = {}
 def main():
@@ -53,7 +53,7 @@ def main():
     na += [{"property_id": k, "reason": v} for k, v in sorted(PENDING.items()) if k not in CLAIMED]
     m = {"version": 1,
          "setup_cmd": "/venv/bin/python -c \"import numpy, scipy, h5py, lxml, rapidjson, pandas, jsonschema, autograd\" && /venv/bin/python -m vsim.selfcheck",
-         "hooks": {"guard": "PYERRORS_VERIF_SIM", "enable": "no source hooks: all seams are module-level names rebound from outside (pyerrors.input.*.os/open/gzip/datetime/getpass/socket/platform); checks import pyerrors from /repo's working tree via PYTHONPATH",
+         "hooks": {"guard": "PYERRORS_VERIF_SIM", "enable": "no source hooks: all seams are module-level names rebound from outside (pyerrors.input.*.os/open/gzip/datetime/getpass/socket/platform, pyerrors.input.hadrons.Path); the cyclic garbage collector is switched off and run at planned points inside the check processes only; checks import pyerrors from /repo's working tree via PYTHONPATH",
                    "baseline_off_cmd": "cd /repo && /venv/bin/python -m pytest -q -p no:cacheprovider --timeout=900", "source_commits": [], "add_only": True},
          "engines": [{"name": "vsim", "path": "vsim/", "serves_properties": sorted(CLAIMED), "kind_free_text": "deterministic simulator: seeded plans as JSON data, fork-per-run pristine workers under fixed PYTHONHASHSEEDs, stub writers + seams (os/open/gzip/clock/user/host), fault injection, ddmin minimisation, replay files"}],
          "checks": checks, "not_applicable": na,
